@@ -5,7 +5,20 @@ package app
 import (
 	"regexp"
 	"strings"
+	"time"
+
+	m "github.com/Eyevinn/dash-mpd/mpd"
 )
+
+// vDateTimeMS parses a DateTime written by the real code back to Unix milliseconds (native side).
+// Under symbolic execution it is replaced by vStubDateTimeMS (the ms value handed to the stubbed formatter).
+func vDateTimeMS(dt m.DateTime) int {
+	t, err := time.Parse(m.RFC3339MS, string(dt))
+	if err != nil {
+		panic("vDateTimeMS: " + err.Error())
+	}
+	return int(t.UnixMilli())
+}
 
 // vPrepareRegexps does natively what addRegExpAndInit does for the media pattern (the generated
 // asset tables carry no compiled regexps). Under symbolic execution it is a no-op stub.
